@@ -204,6 +204,10 @@ class Adapter(object):
     types = set(x["t"] for l in lists for x in l)
     sig["enqueue"] = "enqueue" in types
     sig["table"] = any(x["t"] == "output" and x["n"] == rb.OFPP_TABLE for l in lists for x in l)
+    # output:TABLE followed by further actions of the same packet-out list ('mid'), or closing it ('last')
+    ix = [i for i, x in enumerate(args.get("acts") or []) if x["t"] == "output" and x["n"] == rb.OFPP_TABLE]
+    sig["table_pos"] = "" if not ix or a == "Rx" else ("mid" if ix[0] < len(args["acts"]) - 1 else "last")
+    sig["after_table_mid"] = bool(st.get("info", {}).get("after_table_mid"))
     shape = st.get("info", {}).get("shape", "")
     sig["odd_l4"] = shape.endswith("_odd")
     sig["cfi"] = shape == "t_cfi"
